@@ -1414,7 +1414,8 @@ def i_SMSW(i, fmap):
     logger.warning("%s semantic is not defined" % i.mnemonic)
     fmap[rip] = fmap[rip] + i.length
     dst = i.operands[0]
-    fmap[dst] = top(16)
+    dst, x = _r32_zx64(dst, top(dst.size))
+    fmap[dst] = x
 
 
 # result of a bit scan/count: a constant if the source is one, unknown
